@@ -111,16 +111,20 @@ class SymFloat(Sym):
            (positive int) is the value the computation would have in exact arithmetic, |real - num/den| <= eps (Fraction,
            derived from static magnitude bounds), and `exact` (Bool term / bool) implies real == num/den. When present the
            double is a fresh Real variable constrained by exactly these two facts (no chain of earlier roundings).
+    noise: only with `dec`: a symbolic Int k in [-2, 2]: the double lies k units in the last place away from the double
+           nearest to the decimal (the result of multiplying a <= 15-digit decimal double by a power of ten: two
+           roundings). Only sign, integrality, truncation and 15-significant-digit rounding are defined on such a value.
     """
-    __slots__ = ("t", "quot", "ival", "dec", "real", "ideal")
+    __slots__ = ("t", "quot", "ival", "dec", "real", "ideal", "noise")
 
-    def __init__(self, t=None, quot=None, ival=None, dec=None, real=None, ideal=None):
+    def __init__(self, t=None, quot=None, ival=None, dec=None, real=None, ideal=None, noise=None):
         self.t = t
         self.quot = quot
         self.ival = ival
         self.dec = dec
         self.real = real
         self.ideal = ideal
+        self.noise = noise
 
     def __repr__(self):
         return f"SymFloat(t={self.t}, quot={self.quot}, ival={self.ival}, dec={self.dec}, real={self.real})"
